@@ -877,7 +877,10 @@ func c08LengthAlgebra(w *World, r *Report) {
 		r.Undecided("R08.9", "anchor", "-", "anchor unresolved: enc.Encoder")
 		return
 	}
-	const K = 64
+	K := int64(64)
+	if r.Tier == "thorough" {
+		K = 512 // every request / response size the tunnel can form is below this
+	}
 	var lengths []int64
 	for n := int64(0); n <= K; n++ {
 		lengths = append(lengths, n)
